@@ -524,11 +524,9 @@ package ast
 //@   modifies nothing
 //
 //@ func SchemaMeta.Equal
-//@   property C07
 //@   inline
 //
 //@ func (*Schema).AddObject
-//@   property C07
 //@   inline
 //
 //@ func (*Schema).Merge
